@@ -213,6 +213,11 @@ func (g *grpcClient) WriteRequestHeader(_ StreamType, header http.Header) {
 	// compress the whole stream. By default, http.Client will ask the server
 	// to gzip the stream if we don't set Accept-Encoding.
 	header["Accept-Encoding"] = []string{compressionIdentity}
+	// The header map may be the caller's own, from a Request that went through
+	// another client before: what that client compressed with and accepts says
+	// nothing about this one.
+	delete(header, grpcHeaderCompression)
+	delete(header, grpcHeaderAcceptCompression)
 	if g.CompressionName != "" && g.CompressionName != compressionIdentity {
 		header[grpcHeaderCompression] = []string{g.CompressionName}
 	}
